@@ -39,7 +39,9 @@ func TestVfRace(t *testing.T) {
 	mk := func(tag string, n int) vfBlob { return vfMkBlob("race/"+tag, n, true) }
 	A, B, C, D := mk("A", 3000), mk("B", 3000), mk("C", 3000), mk("D", 5000)
 	ack := vlib.Sha([]byte("race ac"))
-	put := func(c Cache, k cache.EntryKind, h string, d []byte) { _ = c.Put(ctx, k, h, int64(len(d)), bytes.NewReader(d)) }
+	put := func(c Cache, k cache.EntryKind, h string, d []byte) {
+		_ = c.Put(ctx, k, h, int64(len(d)), bytes.NewReader(d))
+	}
 	get := func(c Cache, k cache.EntryKind, h string, size int64, z bool) {
 		var rc io.ReadCloser
 		if z {
